@@ -24,7 +24,8 @@ def run(ctx):
     nontriv = set()
     known = {}
     pats = ['*', '**', '*/*', '*.txt', '**/*.txt', 'sub', 'sub/', '*/', '**/', 's*', '[ab]*', '!(a*)', '@(real|vis)/*', '.*', 'real/**', '*/sub/*', 'a', 'x.txt',
-            ['*', '*/'], ['sub', 'sub/'], ['**/*', '**/*/'], 'nlink', 'd*/', '**/x*', './*', 'real/./x.txt']
+            ['*', '*/'], ['sub', 'sub/'], ['**/*', '**/*/'], 'nlink', 'd*/', '**/x*', './*', 'real/./x.txt',
+            'b/**/deep.txt', 'sub/**/*.txt', 'b/**/sub/*', 'real/**/y.txt', 'x/**/f', '*/**/x*', 'a/**', 'sub/**']
     for ti in range(len(trees.DESIGNED) + (3 if ctx.quick else 30)):
         spec = trees.DESIGNED[ti] if ti < len(trees.DESIGNED) else trees.random_spec(rng, size=rng.randint(5, 12))
         with trees.Tree(spec + [('pkg.d', 'd', None), ('pkg.d/m.py', 'f', None)]) as T:
